@@ -10,8 +10,8 @@
      LSubscribe   Materializer.Run: Unsubscribe the previous subscription, initialHandler(index),
                   EventPublisher.Subscribe with the materializer's index (resume / cached snapshot /
                   fresh snapshot spliced onto the topic buffer)
-     LNext        Subscription.Next (non blocking; batches not newer than the subscription's snapshot are
-                  skipped) + the materializer's handler on the delivered event
+     LNext        Subscription.Next (non blocking; batches strictly older than the subscription's snapshot
+                  are skipped) + the materializer's handler on the delivered event
      LUnsub       Subscription.Unsubscribe (freeBuf)
      LRestore     fsm.Restore: new store, RefreshAllTopics (caches and topic buffers dropped, every
                   subscription force-closed, publisher generation incremented)
@@ -420,10 +420,12 @@ Definition handle (epoch : N) (x : client) (s : sub) (it : item) : client :=
   | HStream, INstf => mk (c_view x) 0%N HStream (c_epoch x)
   end.
 
-(* Subscription.Next: "event.Index > 0 && event.Index <= s.snapshotIndex && !event.IsFramingEvent()" *)
+(* Subscription.Next (f559b0f amended by 716731d):
+   "event.Index > 0 && event.Index < s.snapshotIndex && !event.IsFramingEvent()" — a batch at the
+   snapshot's own index is delivered (again), only strictly older ones are skipped *)
 Definition skipped (snap : N) (it : item) : bool :=
   match it with
-  | IEv i _ => N.ltb 0 i && N.leb i snap
+  | IEv i _ => N.ltb 0 i && N.ltb i snap
   | _ => false
   end.
 
